@@ -298,7 +298,9 @@ class PandasCheckBackend(BaseCheckBackend):
             # indicating which column and value failed in that row.
             failure_cases = (
                 failure_cases.set_index("column")
-                .groupby("index")
+                # (observed: row labels of a CategoricalIndex that have no
+                # failing cell are not failure cases)
+                .groupby("index", observed=True)
                 .agg(lambda df: df.to_dict())
             )
         else:
